@@ -1,6 +1,6 @@
 """Property -> rules wiring and MANIFEST metadata."""
 from . import facts
-from .rules import f5_trace, f6_kinds, f7_roots, f4_gc, f4_chan, f4_sched, f4_vm, f1_isa, f9_casts, f10_parity, f2_emit, f4_exc, f4_cache, f4_obj, f11_peephole, f8_hazards
+from .rules import f5_trace, f6_kinds, f7_roots, f4_gc, f4_chan, f4_sched, f4_vm, f1_isa, f9_casts, f10_parity, f2_emit, f4_exc, f4_cache, f4_obj, f11_peephole, f8_hazards, f1c_ops
 
 
 def D(rec):
@@ -41,6 +41,15 @@ def c20(rec, tier):
     f4_gc.gc_phase_order(rec, F)
     f7_roots.run(rec, F)
     f4_gc.intern_funnel(rec, F)
+
+
+def c01(rec, tier):
+    F = D(rec)
+    S = SY(rec)
+    f1c_ops.run(rec, F, S)
+    f9_casts.run_vm(rec, F)
+    T = f1_isa.run_tables(rec, F)
+    f1_isa.run_jumps(rec, F, T)
 
 
 def c02(rec, tier):
@@ -102,6 +111,8 @@ def c07(rec, tier):
     F = D(rec)
     f4_chan.run(rec, F)
     f1_isa.run_rewind(rec, F)
+    # a buffered value must survive collection while only the channel holds it
+    f5_trace.run(rec, F, only_adts=("laythe_core::object::channel::channel_queue::ChannelQueue", "laythe_core::object::channel::Channel", "laythe_core::object::channel::channel_waiter::ChannelWaiter"))
 
 
 def c08(rec, tier):
@@ -170,6 +181,8 @@ def c17(rec, tier):
     F = D(rec)
     f4_vm.run_c17(rec, F)
     f1_isa.run_rewind(rec, F)
+    # the module tables are keyed by interned strings compared by address: keys and modules must be GC roots
+    f5_trace.run(rec, F, only_adts=("laythe_vm::vm::Vm", "laythe_core::module::Module", "laythe_core::module::package::Package"), only_fields=("module_cache", "packages", "modules", "symbols", "symbols_by_name", "exports", "module_class", "path", "name", "module"))
 
 
 def c18(rec, tier):
@@ -185,9 +198,15 @@ def c19(rec, tier):
     f4_vm.diagnostics_gate(rec, F)
 
 
-CHECKS = {"C12": c12, "C02": c02, "C03": c03, "C04": c04, "C13": c13, "C05": c05, "C06": c06, "C10": c10, "C11": c11, "C14": c14, "C07": c07, "C08": c08, "C09": c09, "C15": c15, "C16": c16, "C17": c17, "C18": c18, "C19": c19, "C20": c20}
+CHECKS = {"C01": c01, "C12": c12, "C02": c02, "C03": c03, "C04": c04, "C13": c13, "C05": c05, "C06": c06, "C10": c10, "C11": c11, "C14": c14, "C07": c07, "C08": c08, "C09": c09, "C15": c15, "C16": c16, "C17": c17, "C18": c18, "C19": c19, "C20": c20}
 
 META = {
+    "C01": {
+        "text": "The operator chain decided end to end for the 10 binary and 2 unary operators and and/or: scanner lexeme -> TokenKind; parser tables joined with the TokenKind order reproduce laythe.bnf's strata, binary() parses its right operand one level higher (left associativity), and/or re-enter at their own level; token -> BinaryOp -> opcode maps preserve meaning; lhs is emitted before rhs; and/or/if/while/ternary emission skeletons and label discipline; each handler applies the operator's own f64 operation to (second-popped, first-popped) under number tests, orders strings with the operator's Ordering, raises otherwise; equality uses Value ==; Not/And/Or/JumpIfFalse decide on exactly is_false || is_nil with the right jump edge; arity check dominates push_frame; jump bias/offset clauses (F1.j); unchecked casts in handlers are guarded (F9.h). That arbitrary nestings print the right output (needs an evaluator oracle) and IEEE results are declined.",
+        "note": "Oracle = a 12-row operator table taken from README.md / laythe.bnf in lyverif/rules/f1c_ops.py.",
+        "technique": "static analysis: table composition across scanner/parser/compiler syntax trees and handler MIR (operand provenance by pop order, dominating kind tests)",
+        "design_ref": "DESIGN.md §3 C01, §2 F1.c",
+    },
     "C02": {
         "text": "Twin agreement of the four variable access emitters over all (resolution, SymbolState) cases (a captured variable never maps to a raw-slot instruction; captured declarations always allocate a box); op_closure copies box references per CaptureIndex kind and reads exactly capture_count operands; boxes are allocated only by EmptyBox/Box; get/set box/capture go through the box; add_capture de-duplicates only equal Local slots. Innermost-declaration resolution and fresh-variable-per-execution are declined (properties of the resolver's symbol tables over all programs).",
         "note": "Structural necessary conditions of sharing-by-reference.",
